@@ -783,6 +783,14 @@ def gen_c17(rng, tier):
         cls = rng.choice(["ctx_width", "ctx_rows", "predict_ctx_presence", "ctx_presence"])
     elif base["lp"][0] == "thompson" and base["lp"][1] is None and z < 0.7:
         cls = "nonbinary_ts"
+    if rng.random() < 0.05:
+        # l2_lambda = 0 (legal for LinGreedy / LinUCB): a partial_fit whose rows make the matrix of a LATER arm exactly singular
+        # (np.linalg.inv raises LinAlgError after the earlier arms were refitted) - finding D22
+        kind = rng.choice(["lingreedy", "linucb"])
+        arms = [3, 5]
+        base = {"arms": arms, "lp": (kind, 0.0 if kind == "lingreedy" else 1.0, 0.0, False, True), "np": None, "seed": rng.randint(0, 10**6),
+                "ops": [("fit", [3, 3], [1.0, 2.0], [[1.0, 0.0], [0.0, 1.0]])], "label": "int", "mode": "tol", "reward_style": "smallint"}
+        return {"base": base, "pos": 1, "cls": "singular_l2_zero", "seed2": rng.randint(0, 10**9)}
     if rng.random() < 0.12:
         # a linear policy with scale=True, arms without observations (omitted from the batches or added later), and a
         # call rejected from inside training: the per-arm scalers must not keep anything of it
@@ -838,6 +846,10 @@ def bad_call(mab, label, inv, base, cls, rng, d, arms, fitted):
             mab.warm_start({a: [1.0, float(i)] for i, a in enumerate(la)}, rng.choice([1.5, -0.25]))
         elif cls == "warm_keys":
             mab.warm_start({a: [1.0, float(i)] for i, a in enumerate(la[:-1])}, 0.5)
+        elif cls == "singular_l2_zero":
+            a, b = la[0], la[1]
+            k = float(rng.randint(1, 3))
+            mab.partial_fit([a, b], [5.0, 1.0], [[1.0, 1.0], [k, 2.0 * k]])     # arm b: A = x x' (rank one, exact in binary64)
         elif cls == "too_few_rows":
             if not (base.get("np") and base["np"][0] == "clusters"): return "n/a"
             # fewer rows than clusters - in half of the cases with contexts of another width as well (k-means looks at the
@@ -902,7 +914,7 @@ def run_c17(t):
         a = series_query(mab); b = series_query(twin)
         if a[0] != b[0] or (a[0] == "exps" and not outs_equal(a, b, rel_mode(base), rtol=1e-12)):
             return False, {"why": "after a rejected %s call (%s) a query passed as a pandas Series is answered differently from the bandit that never saw the call" % (t["cls"], type(exc).__name__),
-                           "after_rejected": str(a)[:300], "never_called": str(b)[:300], "series": vals}
+                           "after_rejected": str(a)[:300], "never_called": str(b)[:300], "series": vals, "exception": type(exc).__name__}
     cont.append(("pfit", dsx, [draw() for _ in range(n)], cxx))
     cont.append(("pexp", None if cxx is None else gen.gen_ctx(rng, 2, dd or 2)))
     cont.append(("pred", None if cxx is None else [list(cxx[0])]))
@@ -911,7 +923,7 @@ def run_c17(t):
         b = mwh.apply_op(twin, o, label, inv, base)
         if a[0] != b[0] or not outs_equal(a, b, rel_mode(base), rtol=1e-12):
             return False, {"why": "after a rejected %s call (%s: %s) continuation call %d (%s) differs from the bandit that never saw the call" % (
-                               t["cls"], type(exc).__name__, str(exc)[:120], i, o[0]),
+                               t["cls"], type(exc).__name__, str(exc)[:120], i, o[0]), "exception": type(exc).__name__,
                            "after_rejected": str(a)[:300], "never_called": str(b)[:300]}
         if [inv(x) for x in mab.arms] != [inv(x) for x in twin.arms]:
             return False, {"why": "arms differ after continuation call %d" % i}
@@ -1120,7 +1132,29 @@ def run_c12(t):
     return True, {}
 
 # ------------------------------------------------------------------ C02
+def gen_c02_large(rng):
+    """one training call with thousands of rows (sizes just above powers of two), most of them for one arm: whatever the code does
+    per block, per buffer or per page of rows must not show in the regression (relation only: numpy's solve is the oracle)"""
+    kind = rng.choice(gen.LIN_KINDS)
+    d = rng.randint(1, 3)
+    n = rng.choice([1025, 2049, 4097, 4100, 5000, 8193, 9001])
+    arms = [2, 7]
+    ds = [2 if rng.random() < 0.9 else 7 for _ in range(n)]
+    cx = [[float(rng.randint(0, 9)) for _ in range(d)] for _ in range(n)]
+    w = [rng.uniform(-1, 1) for _ in range(d)]
+    rs = [float(round(sum(a * b for a, b in zip(w, row)) + rng.uniform(-0.5, 0.5), 3)) for row in cx]
+    scale = rng.random() < 0.6
+    hp = 0.0 if kind == "lingreedy" else (1e-9 if kind == "lints" else rng.choice([0.5, 1.0]))
+    base = {"arms": arms, "lp": (kind, hp, rng.choice([0.5, 1.0, 2.0]), scale, True), "np": None, "seed": rng.randint(0, 10**6),
+            "ops": [("fit", ds, rs, cx)], "label": "int", "mode": "tol", "reward_style": "float"}
+    if not scale and rng.random() < 0.5:
+        k = rng.randint(1, n - 1)
+        base["ops"] = [("fit", ds[:k], rs[:k], cx[:k]), ("pfit", ds[k:], rs[k:], cx[k:])]
+    return {"base": base, "seed2": rng.randint(0, 10**9)}
+
 def gen_c02(rng, tier):
+    if rng.random() < 0.04:
+        return gen_c02_large(rng)
     base = gen.gen_ctx_case(rng, nps=["none"], lps=gen.LIN_KINDS, max_ops=5, reward_styles=["dyadic", "smallint", "float"], queries=False,
                             max_rows=30, fit_prob=0.05)
     lp = list(base["lp"])
